@@ -157,6 +157,20 @@ fn run_real(w: u32, d: &[u8], args: &[u64], key: &[u8]) -> Obs {
         45 => obs(move || ArrayView::new(&d).and_then(|a| a.get_blob(i).map(digest)), |v| v),
         46 => obs(move || ArrayView::new(&d).and_then(|a| a.get_text(i).map(|s| digest(s.as_bytes()))), |v| v),
         47 => obs(move || ArrayView::new(&d).map(|a| vec![a.len() as i128]), |v| v),
+        48 => obs(move || ArrayView::new(&d).and_then(|a| {
+                 // sql/decoder.rs format_array, one element
+                 if a.is_null(i) { return Ok(vec![0]); }
+                 Ok(match a.elem_type() {
+                     DataType::Int2 => vec![1, a.get_int2(i)? as u16 as i128],
+                     DataType::Int4 => vec![1, a.get_int4(i)? as u32 as i128],
+                     DataType::Int8 => vec![1, a.get_int8(i)? as u64 as i128],
+                     DataType::Float4 => vec![1, a.get_float4(i)?.to_bits() as i128],
+                     DataType::Float8 => vec![1, a.get_float8(i)?.to_bits() as i128],
+                     DataType::Bool => vec![1, a.get_bool(i)? as i128],
+                     DataType::Text | DataType::Varchar | DataType::Char => { let mut v = vec![2]; v.extend(digest(a.get_text(i)?.as_bytes())); v }
+                     DataType::Blob => { let mut v = vec![2]; v.extend(digest(a.get_blob(i)?)); v }
+                     _ => vec![3],
+                 }) }), |v| v),
         50 => {
             let types: Vec<DataType> = args.iter().map(|c| DataType::try_from(*c as u8).unwrap_or(DataType::Int8)).collect();
             let schema = Schema::new(types.iter().enumerate().map(|(i, t)| RCol::new(format!("c{}", i), *t)).collect());
@@ -176,7 +190,7 @@ fn constructor_ok(w: u32, d: &[u8]) -> bool {
         21..=24 => matches!(run_real(20, d, &[], &[]), Obs::Ok(_)),
         31..=34 => matches!(run_real(30, d, &[], &[]), Obs::Ok(_)),
         40 => true,
-        41..=47 => d.len() >= 8,
+        41..=48 => matches!(run_real(40, d, &[], &[]), Obs::Ok(_)),
         50 => d.len() >= 2,
         _ => false,
     }
@@ -186,20 +200,8 @@ fn u16at(d: &[u8], o: usize) -> usize { if o + 1 < d.len() { d[o] as usize | (d[
 /// harness-side classification of a panicking decoder case (for `search` lines; the authoritative
 /// class is Corr/C23.v dec_class, evaluated inside Coq)
 fn dec_class(w: u32, d: &[u8], args: &[u64]) -> u32 {
-    let i = args.first().copied().unwrap_or(0) as u128;
-    let cc = u16at(d, 2) as u128;
-    match w {
-        12..=15 if i < cc && 24 + 8 * i + 8 > PAGE as u128 => 1,
-        14 => 2,
-        21 | 22 if i < cc && 16 + 12 * i + 12 > PAGE as u128 => 3,
-        23 if 16 + 12 * cc > PAGE as u128 => 3,
-        32 | 33 if i < u16at(d, 16) as u128 && 64 + 4 * i + 4 > PAGE as u128 => 4,
-        33 => 5,
-        41 => 6,
-        42..=46 => 7,
-        50 => 14,
-        _ => 0,
-    }
+    let _ = (d, args);
+    if w == 50 { 14 } else { 0 }
 }
 
 struct DecCase { w: u32, d: Vec<u8>, args: Vec<u64>, key: Vec<u8>, kind: &'static str }
@@ -472,10 +474,11 @@ fn array_cases(rng: &mut Rng, n: usize, out: &mut Vec<DecCase>) {
         };
         let len = u16at(&d, 6) as u64;
         let i = match rng.below(6) { 0 => 0, 1 => len.saturating_sub(1), 2 => len, 3 => rng.below(len.max(1)), 4 => rng.below(70000), _ => rng.below(len.clamp(1, 8)) };
+        // after new(): the type byte, the bitmap, and the element through the getter its type selects (format_array)
+        let _ = w;
         let (wh, args) = match rng.below(12) {
             0 => (40, vec![]), 1 => (41, vec![]), 2 => (47, vec![]), 3 | 4 => (42, vec![i]),
-            5 | 6 | 7 => { let ww = if w >= 2 && rng.chance(3, 4) { w as u64 } else { *rng.pick(&[2u64, 4, 8]) }; (43, vec![ww, i, rng.below(2)]) }
-            8 => (44, vec![i]), 9 | 10 => (45, vec![i]), _ => (46, vec![i]),
+            _ => (48, vec![i]),
         };
         out.push(DecCase { w: wh, d, args, key: vec![], kind });
     }
@@ -529,8 +532,13 @@ fn boundary_cases(out: &mut Vec<DecCase>) {
     for cc in [1364u16, 1365, 2728, 2729, 2730, 65535] {
         for key in [vec![], vec![0u8], vec![255u8, 255, 255, 255, 255]] { out.push(DecCase { w: 23, d: page(1, cc), args: vec![], key, kind: "boundary" }); }
     }
+    // the fullest slot arrays check_slot_geometry accepts (free_start = free_end = PAGE_SIZE), and one slot more
+    let mut full = |t: u8, cc: u16| { let mut p = vec![0u8; PAGE]; p[0] = t; put(&mut p, 2, &le(cc as u64, 2)); put(&mut p, 4, &le(16384, 2)); put(&mut p, 6, &le(16384, 2)); p };
+    for (cc, i) in [(2045u16, 2044u64), (2045, 2045), (2046, 2045)] { for w in 10..=15 { out.push(DecCase { w, d: full(2, cc), args: vec![i], key: vec![], kind: "boundary" }); } }
+    for (cc, i) in [(1364u16, 1363u64), (1364, 1364), (1365, 1364)] { for w in 20..=23 { out.push(DecCase { w, d: full(1, cc), args: vec![i], key: vec![0u8], kind: "boundary" }); } }
     // leaf value length that overflows usize: slot 0 -> cell at 16000, key_len 4, varint 0xFF + 8 x 0xFF
     let mut p = page(2, 1);
+    put(&mut p, 4, &le(32, 2)); put(&mut p, 6, &le(16000, 2));
     put(&mut p, 24, &[1, 2, 3, 4]); put(&mut p, 28, &le(16000, 2)); put(&mut p, 30, &le(4, 2));
     put(&mut p, 16000, &[1, 2, 3, 4]); put(&mut p, 16004, &[255; 9]);
     for w in 13..=15 { out.push(DecCase { w, d: p.clone(), args: vec![0], key: vec![], kind: "boundary" }); }
@@ -551,6 +559,10 @@ fn boundary_cases(out: &mut Vec<DecCase>) {
     out.push(DecCase { w: 42, d: vec![8, 0, 0, 0, 2, 1, 1, 0], args: vec![0], key: vec![], kind: "boundary" });
     out.push(DecCase { w: 45, d: vec![9, 0, 0, 0, 21, 1, 1, 0, 0], args: vec![0], key: vec![], kind: "boundary" });
     out.push(DecCase { w: 45, d: vec![0, 0, 0, 0, 21, 1, 1, 0, 0, 0, 0, 0, 0], args: vec![0], key: vec![], kind: "boundary" });
+    out.push(DecCase { w: 48, d: vec![12, 0, 0, 0, 2, 1, 1, 0, 0, 5, 0, 0, 0], args: vec![0], key: vec![], kind: "boundary" });
+    out.push(DecCase { w: 48, d: vec![15, 0, 0, 0, 21, 1, 1, 0, 0, 0, 0, 0, 0, 104, 105], args: vec![0], key: vec![], kind: "boundary" });
+    out.push(DecCase { w: 48, d: vec![11, 0, 0, 0, 1, 1, 1, 0, 0, 5, 0], args: vec![0], key: vec![], kind: "boundary" });
+    out.push(DecCase { w: 48, d: vec![13, 0, 0, 0, 21, 1, 1, 0, 0, 9, 0, 0, 0], args: vec![0], key: vec![], kind: "boundary" });
     // records: a TEXT column and a 2-byte record (no room for the null bitmap); an end offset beyond the data
     out.push(DecCase { w: 50, d: vec![2, 0], args: vec![20], key: vec![], kind: "boundary" });
     out.push(DecCase { w: 50, d: vec![5, 0, 0, 9, 0, 1, 2, 3, 4], args: vec![2, 20], key: vec![], kind: "boundary" });
@@ -560,11 +572,12 @@ fn boundary_cases(out: &mut Vec<DecCase>) {
 fn dec_cases(rng: &mut Rng, thorough: bool) -> Vec<DecCase> {
     let mut out = vec![];
     boundary_cases(&mut out);
-    let m = if thorough { 12 } else { 1 };
-    header_cases(rng, 160 * m, &mut out);
-    page_cases(rng, 700 * m, &mut out);
-    array_cases(rng, 900 * m, &mut out);
-    record_cases(rng, 500 * m, &mut out);
+    // quick: ~1500 cases (4 shards); thorough: ~50000
+    let (h, p, a, r) = if thorough { (1900, 8400, 10800, 6000) } else { (40, 270, 300, 160) };
+    header_cases(rng, h, &mut out);
+    page_cases(rng, p, &mut out);
+    array_cases(rng, a, &mut out);
+    record_cases(rng, r, &mut out);
     out
 }
 
@@ -654,7 +667,7 @@ fn parse_fk(l: &str) -> Option<FkCase> {
     for tok in r.split(' ') { if let Some((k, v)) = tok.split_once('=') { m.insert(k, v); } }
     Some(FkCase { key: unhex(m.get("k").copied().unwrap_or("")), d: parse_desc(m.get("d").copied().unwrap_or("0:0:")), kind: "replay" })
 }
-fn fk_class(c: &FkCase, o: &XOut) -> u32 { if matches!(o, XOut::Panic(_)) && u16at(&c.d, 2) > 2045 { 8 } else { 0 } }
+fn fk_class(c: &FkCase, o: &XOut) -> u32 { let _ = (c, o); 0 }
 fn push_fk(w: &mut CaseWriter, c: &FkCase) -> XOut {
     let ds = describe(&c.d);
     let o = run_fk(c);
@@ -1056,14 +1069,8 @@ fn db_class(feat: &[u64], o: &XOut) -> u32 {
     let page_file = matches!(fk, 3 | 4 | 5 | 7);
     let (site, cls) = match o { XOut::Panic(m) => { let mut it = m.splitn(2, " | "); let loc = it.next().unwrap_or(""); (file_code(loc), msg_class(it.next().unwrap_or(""))) } _ => (0, 0) };
     match o {
-        XOut::Panic(_) if page_file && site == 3 && cls == 4 => 8,
-        XOut::Panic(_) if page_file && site == 1 && (cls == 3 || cls == 4) => 9,
-        XOut::Panic(_) if page_file && site == 0 && cls == 4 => 9,
-        XOut::Panic(_) if page_file && site == 2 && cls == 4 => 10,
         XOut::Panic(_) if page_file && matches!(site, 9 | 14 | 22) && cls == 4 => 14,
         XOut::Timeout if page_file => 12,
-        XOut::Panic(_) if fk == 2 && off < 80 && site == 0 && cls == 7 => 11,
-        XOut::Abort if fk == 2 && off < 80 => 11,
         XOut::Panic(_) if fk == 2 && off >= 128 && matches!(site, 9 | 10 | 11 | 22) && cls == 4 => 15,
         _ => 0,
     }
@@ -1140,9 +1147,9 @@ fn gen(a: &Args) {
         }
         None => {
             plan.decs = dec_cases(&mut rng, a.thorough());
-            fk_cases(&mut rng, if a.thorough() { 3000 } else { 300 }, &mut plan.fks);
-            jb_cases(&mut rng, if a.thorough() { 5000 } else { 400 }, &mut plan.jbs);
-            plan.n_db = if a.thorough() { 4000 } else { 200 };
+            fk_cases(&mut rng, if a.thorough() { 3000 } else { 80 }, &mut plan.fks);
+            jb_cases(&mut rng, if a.thorough() { 5000 } else { 120 }, &mut plan.jbs);
+            plan.n_db = if a.thorough() { 4000 } else { 36 };
         }
     }
     let mut panics: BTreeMap<u32, u64> = BTreeMap::new();
